@@ -10,7 +10,7 @@ LEMMAS = {"cbreaks_mono": lemma_cbreaks_mono, "cbreaks_break": lemma_cbreaks_bre
 VERIFY = ["trees.treeanalysis.gap_degree_node", "trees.treeanalysis.has_gaps",
           "trees.treeanalysis.gap_type", "trees.trees.terminal_blocks", "trees.treeanalysis.gap_degree",
           "trees.treeanalysis.SentenceCount.run", "trees.treeanalysis.PosTags.run",
-          "trees.treeanalysis.GapDegree.run"]
+          "trees.treeanalysis.GapDegree.run", "trees.treeanalysis.disco_order"]
 SHARDS = {"trees.trees.terminal_blocks": 8}
 
 TRUSTED = ["definition: gap degree of a node := cbreaks(nums(T(node)), |T|-1), the number of i with "
@@ -21,6 +21,7 @@ ASSUMPTIONS = ["int = mathematical integer; list value semantics; Tree heap mode
 
 def build(reg):
     add_common(reg)
+    add_disco_order(reg)
     wf = lambda S, node: WF(S.H, node) & (node != None)
 
     reg.add(Contract(
@@ -296,3 +297,40 @@ def build(reg):
         requires=lambda S, self, tree: conj(WF(S.H, tree), tree != None, wf_theory(S.H)),
         ensures={"per_degree_counters": gd_run_post}, result_type=INT,
         loops={0: dict(inv=gd_inv, types={"self": GD_SELF})}))
+
+
+# ----------------------------------------------------------------------------------------------------------------------
+# disco_order: the continuous reordering lists exactly the tokens below the node, each once
+# ----------------------------------------------------------------------------------------------------------------------
+def add_disco_order(reg):
+    from pyvc.sym import qforall, TList, VRef, tostr, tobool, fresh_name
+    from contracts.common import wf_theory, wf_theory_tokens, desc
+
+    def tokens_once(H, tree, r):
+        """r lists tokens below `tree`, no token twice, and as many as there are below tree (so: each exactly once)"""
+        i, j = z3.Int(fresh_name("di")), z3.Int(fresh_name("dj"))
+        el = lambda q: r.get(q).t
+        return z3.And(
+            r.n == H.nleaves(tree).t,
+            qforall([i], z3.Implies(z3.And(0 <= i, i < r.n), z3.And(
+                el(i) != 0, tobool(WF(H, VRef(el(i)))), H.nchild_t(el(i)) == 0,
+                tobool(desc(H, tree, VRef(el(i)))))), [el(i)]),
+            qforall([i, j], z3.Implies(z3.And(0 <= i, i < j, j < r.n), el(i) != el(j)), [[el(i), el(j)]]))
+
+    def requires(S, tree, mode):
+        H = S.H
+        x = z3.Int(fresh_name("bx"))
+        return conj(WF(H, tree), tree != None, wf_theory(H), wf_theory_tokens(H),
+                    VBool(z3.Or(tostr(mode) == z3.StringVal("left"), tostr(mode) == z3.StringVal("rightd"))),
+                    # binarized below the node
+                    VBool(qforall([x], z3.Implies(z3.And(tobool(WF(H, VRef(x))), tobool(desc(H, tree, VRef(x)))),
+                                                  H.nchild_t(x) <= 2), [H.nchild_t(x)])))
+
+    reg.add(Contract(
+        target="trees.treeanalysis.disco_order", prop="C16", args=dict(tree=REF, mode=STR),
+        requires=requires,
+        ensures={"every_token_below_exactly_once": lambda S, tree, mode, result: VBool(tokens_once(S.H, tree, result))},
+        result_type=TList(REF),
+        decreases=lambda S, tree, mode: S.H.hgt(tree),
+        solver_hints={"post.": {"cli_s": 30}},
+    ))
